@@ -140,7 +140,7 @@ TypeOK ==
     /\ \A n \in DOMAIN cursors : cursors[n] \in CursorVals
     /\ ret \in Nat
 
-C08_HeightsSummarise == HeightsSummarise(Author, Log)
+C08_HeightsSummarise == HeightsSummarise(Author, SUBSET Log)
 C08_HeightsOfNothingIsNone == HeightsOfNothingIsNone(Author)
 C08_RangesTile == RangesTile(Author, Log, 0..(MaxSeq + 1))
 C08_SizeMatchesEntries == SizeMatchesEntries(Author, Log, 0..(MaxSeq + 1))
